@@ -91,6 +91,17 @@ pub fn run_c01(ctx: &Ctx) -> ! {
         check_c01,
     );
     rep.explore(
+        "sync_topologies",
+        "3-4 replicas start from different downward-closed subsets of one world (built by generated delivery scripts) and exchange \
+         commands through 4-24 generated (requester, responder) sync sessions followed by two all-pairs rounds; every replica must \
+         match the reference model for what it holds, and any two replicas that ended up with the same committed commands must \
+         report identical heads, facts and hello heads; non-trivial = commands were transferred and at least two replicas ended \
+         up equal (sync progress itself is C16's business: a session error fails the case with C16/C17's signature)",
+        crate::sync::topo_case,
+        ctx.pick(300, 20_000),
+        crate::sync::check_topology,
+    );
+    rep.explore(
         "delivery_orders_medium",
         "same with <= 160 recipe steps incl. runs of up to 40 commands (long segments, skip lists)",
         || case_strategy(160, 2, 3, 2..4),
